@@ -79,7 +79,13 @@ func runC14(c *Ctx) {
 		{"rt/security.BearerAuth", false, "bearer"}, {"rt/security.BearerAuthCtx", true, "bearer"},
 	}
 	events := map[string][]string{}
+	delegated := map[string]string{}
 	for _, v := range vs {
+		if sib, ok := delegatesToSibling(c, p.Fn(v.outer), vs2names(vs)); ok {
+			// this variant is the sibling with an adapter callback: the sibling's obligations cover it
+			delegated[v.outer] = sib
+			continue
+		}
 		f := authClosure(p, v.outer)
 		cb := callbackCall(f)
 		c.obRF("R14.1", f, "calls-callback", cb != nil, "the authenticator consults the application's callback", "")
@@ -155,6 +161,24 @@ func runC14(c *Ctx) {
 					}
 				}
 			}
+			// what a getter hands on is what the lookup by name found — on every path (a shortcut answering "" while the
+			// request carries the key reports 'not applicable' for a transmitted credential)
+			for _, a := range anonFuncsDeep(outer) {
+				if a.Signature.Results().Len() != 1 || a.Signature.Params().Len() != 1 || typeStr(a.Signature.Results().At(0).Type()) != "string" {
+					continue
+				}
+				for _, r := range realReturns(a) {
+					ok, bad := allOrigins(r.Results[0], oCallWhere(-1, "(net/http.Header).Get", func(g *ssa.Call) bool {
+						_, ga := callArgs(&g.Call)
+						return isName(ga[0])
+					}), oCallWhere(-1, "(net/url.Values).Get", func(g *ssa.Call) bool {
+						recv, ga := callArgs(&g.Call)
+						okQ, _ := allOrigins(recv, oCall(-1, "(*net/url.URL).Query"))
+						return okQ && isName(ga[0])
+					}))
+					c.obI("R14.1", r, "getter-returns-the-lookup", ok, "the API-key getter returns exactly what Header.Get(name) / URL.Query().Get(name) found, on every path", "the getter can return "+describeOrigin(bad))
+				}
+			}
 			// a header key is read through Header.Get (which canonicalises the configured name), never by indexing the map
 			for _, a := range anonFuncsDeep(outer) {
 				for _, in := range instrs(a) {
@@ -178,6 +202,7 @@ func runC14(c *Ctx) {
 				hk, _ := constString(ha[0])
 				okH := hk == "Authorization"
 				okPrefix := false
+				var prefixFound ssa.Value // the "prefix was present" boolean, when the header is cut by strings.CutPrefix
 				for _, tp := range callsIn(f, "strings.TrimPrefix") {
 					s, _ := constString(tp.Common().Args[1])
 					if s == "Bearer " && tp.Common().Args[0] == ssa.Value(h) {
@@ -219,7 +244,20 @@ func runC14(c *Ctx) {
 							}
 						}
 					}
+					// (early-return style: the remainder is handed back directly)
+					for _, ret := range returnsOf(cp.Parent()) {
+						for _, res := range ret.Results {
+							if res != rest {
+								continue
+							}
+							uses++
+							if !guardedBy(ret, cp, factBool(vIs(found), true)) {
+								okUses = false
+							}
+						}
+					}
 					okPrefix = uses > 0 && okUses
+					prefixFound = found
 				}
 				c.obI("R14.3", h, "header-first-with-bearer-prefix", okH && okPrefix && dominates(h, q) && dominates(h, fm), "the Authorization header is read first and a token is taken from it only behind the \"Bearer \" prefix", "")
 				_, qa := callArgs(&q.Call)
@@ -228,13 +266,18 @@ func runC14(c *Ctx) {
 					ok, _ := allOrigins(v, oConstString(""), oCall(-1, "strings.TrimPrefix"), oCall(0, "strings.CutPrefix"), oCall(-1, "(net/url.Values).Get"), oCall(-1, "(*net/http.Request).FormValue"))
 					return ok
 				}, "", true)
-				c.obI("R14.3", q, "query-only-without-header-token", qk == "access_token" && guardedBy(q, h, isTokenEmpty), "the access_token query parameter is read only when the header gave no token", "")
+				// "the header gave no token": the token so far is empty, or the header did not carry the prefix at all
+				noHeaderToken := isTokenEmpty
+				if prefixFound != nil {
+					noHeaderToken = anyFact(isTokenEmpty, factBool(vIs(prefixFound), false))
+				}
+				c.obI("R14.3", q, "query-only-without-header-token", qk == "access_token" && guardedBy(q, h, noHeaderToken), "the access_token query parameter is read only when the header gave no token", "")
 				fk, _ := constString(fm.Call.Args[1])
 				isForm := func(cond ssa.Value, branch bool) bool {
 					ct := vOrigins(oCall(0, "rt.ContentType"))
 					return factEqString(ct, "application/x-www-form-urlencoded", true)(cond, branch) || factEqString(ct, "multipart/form-data", true)(cond, branch)
 				}
-				c.obI("R14.3", fm, "form-only-for-form-media-types", fk == "access_token" && guardedBy(fm, nil, isForm) && guardedBy(fm, h, isTokenEmpty), "the form body is consulted only for the two form media types and only when no token was found before", "")
+				c.obI("R14.3", fm, "form-only-for-form-media-types", fk == "access_token" && guardedBy(fm, nil, isForm) && guardedBy(fm, h, noHeaderToken), "the form body is consulted only for the two form media types and only when no token was found before", "")
 				// the token tested right before the form read: every way it can be empty has gone through the query read
 				okPre, whyPre := false, "no `token == \"\"` test on a merged token value guards the form read"
 				for _, in := range instrs(f) {
@@ -253,6 +296,10 @@ func runC14(c *Ctx) {
 							okPre, whyPre = false, "the form body can be read although the query parameter was not tried (FormValue would then let the body pre-empt the query)"
 						}
 					}
+				}
+				if !okPre && q.Parent() == fm.Parent() && dominates(q, fm) && guardedBy(fm, q, factEqString(vIs(q), "", true)) {
+					// early-return style: the form read lies behind the query read and behind "the query gave nothing"
+					okPre, whyPre = true, ""
 				}
 				c.obI("R14.3", fm, "form-never-pre-empts-query", okPre,
 					"every way of reaching the form read with an empty token has tried the query parameter first (FormValue merges query and body, body first: reading it alone would invert the precedence)", whyPre)
@@ -308,28 +355,48 @@ func runC14(c *Ctx) {
 		events[v.outer] = ev
 	}
 	for i := 0; i+1 < len(vs); i += 2 {
+		if delegated[vs[i].outer] == vs[i+1].outer || delegated[vs[i+1].outer] == vs[i].outer {
+			c.ob("R14.4", vs[i].outer, "sibling-agreement", "-", true, "the plain and the context-aware variant read the same credential sources with the same constants in the same order (one delegates to the other)", "")
+			continue
+		}
 		a, b := events[vs[i].outer], events[vs[i+1].outer]
 		c.ob("R14.4", vs[i].outer, "sibling-agreement", "-", strings.Join(a, ";") == strings.Join(b, ";") && len(a) > 0,
 			"the plain and the context-aware variant read the same credential sources with the same constants in the same order", fmt.Sprintf("plain: %v\nctx: %v", a, b))
 	}
-	c.min("R14.1", 18)
-	c.min("R14.2", 12)
-	c.min("R14.3", 8)
+	// "together with the operation's required scopes": the scopes an authenticator is handed are those of its own
+	// requirement alternative (the table is built per alternative; one table shared by the alternatives hands every
+	// one of them the scopes of the last)
+	ruleAlternativeStorageFresh(c, "R14.1")
+	ruleRequiredScopesPerScheme(c, "R14.1")
+	nDel := len(delegated) // (a delegating variant contributes its pass-through obligations instead of its own)
+	c.min("R14.1", 20-4*nDel)
+	c.min("R14.2", 12-3*nDel)
+	c.min("R14.3", 8-4*nDel)
 
 	// R14.5 client writers
 	serverHdr := "Authorization"
 	ba := onlyClosure(p.Fn("rt/client.BasicAuth"))
+	baOuter := p.Fn("rt/client.BasicAuth")
+	opaque := func(ps []ssa.Value) []ssa.Value {
+		var out []ssa.Value
+		for _, x := range ps {
+			if _, isK := x.(*ssa.Const); !isK {
+				out = append(out, x)
+			}
+		}
+		return out
+	}
 	for _, sh := range callsIn(ba, "(rt.ClientRequest).SetHeaderParam") {
 		_, a := callArgs(sh.Common())
 		k, _ := constString(a[0])
 		elems, _ := sliceLitElems(a[1])
 		okV := false
 		if len(elems) == 1 {
+			// whatever the spelling of the assembly: the value is the pieces "Basic ", base64.StdEncoding(user ":" password)
 			// (the header value may be computed once in the constructor and captured)
-			if bo, ok := resolve1(elems[0]).(*ssa.BinOp); ok {
-				pre, _ := constString(bo.X)
-				enc := asCall(resolve1(bo.Y))
-				if pre == "Basic " && enc != nil && calleeName(&enc.Call) == "(*encoding/base64.Encoding).EncodeToString" {
+			top, okT := concatPieces(elems[0], 0)
+			if okT && pieceText(top) == "Basic \x00" {
+				if enc := asCall(resolve1(opaque(top)[0])); enc != nil && calleeName(&enc.Call) == "(*encoding/base64.Encoding).EncodeToString" {
 					recv, ea := callArgs(&enc.Call)
 					isStd := false
 					if ad, okk := derefLoad(recv); okk {
@@ -337,11 +404,11 @@ func runC14(c *Ctx) {
 							isStd = short(g.String()) == "encoding/base64.StdEncoding"
 						}
 					}
-					// []byte(username + ":" + password)
-					okCred := false
-					if cv, isCv := ea[0].(*ssa.Convert); isCv {
-						lit, _ := concatLiteralN(cv.X)
-						okCred = lit == ":"
+					cred, okC := concatPieces(ea[0], 0)
+					okCred := okC && pieceText(cred) == "\x00:\x00"
+					if okCred {
+						ops := opaque(cred)
+						okCred = isOuterParam(ops[0], baOuter, 0) && isOuterParam(ops[1], baOuter, 1)
 					}
 					okV = isStd && okCred
 				}
@@ -356,9 +423,9 @@ func runC14(c *Ctx) {
 		elems, _ := sliceLitElems(a[1])
 		okV := false
 		if len(elems) == 1 {
-			if bo, ok := resolve1(elems[0]).(*ssa.BinOp); ok {
-				pre, _ := constString(bo.X)
-				okV = pre == "Bearer " && isOuterParam(bo.Y, p.Fn("rt/client.BearerToken"), 0)
+			top, okT := concatPieces(elems[0], 0)
+			if okT && pieceText(top) == "Bearer \x00" {
+				okV = isOuterParam(opaque(top)[0], p.Fn("rt/client.BearerToken"), 0)
 			}
 		}
 		c.obI("R14.5", sh, "bearer-writer", k == serverHdr && okV, "BearerToken writes \"Bearer \" + token to the Authorization header (the prefix the server strips)", "")
@@ -392,7 +459,26 @@ func runC14(c *Ctx) {
 	}
 	c.obF("R14.5", sh, "header-writes-canonical", okCanon, "header parameters are written under their canonical name", "")
 	ruleQuerySnapshotAfterAuth(c, "R14.5")
-	c.min("R14.5", 7)
+	// Compose applies EVERY non-nil writer it was given, in order: a writer is skipped only for being nil (an API key
+	// composed after a bearer token is still attached)
+	{
+		co := onlyClosure(p.Fn("rt/client.Compose"))
+		loops := sliceLoops(co, nil)
+		c.obRF("R14.5", co, "compose-iterates-writers", len(loops) == 1, "Compose iterates over its writers", fmt.Sprintf("%d loops", len(loops)))
+		for _, l := range loops {
+			isElem := func(v ssa.Value) bool {
+				ad, ok := derefLoad(v)
+				return ok && ad == ssa.Value(l.Elem)
+			}
+			isApply := func(in ssa.Instruction) bool {
+				ci, ok := in.(ssa.CallInstruction)
+				return ok && ci.Common().IsInvoke() && ci.Common().Method.Name() == "AuthenticateRequest" && isElem(ci.Common().Value)
+			}
+			skipped := pathExists(co, l.Body, l.Test, factNil(isElem, true), isApply)
+			c.obI("R14.5", l.Elem, "compose-applies-every-writer", !skipped, "every non-nil writer composed is applied to the request", "an iteration can move on to the next writer without applying a non-nil one")
+		}
+	}
+	c.min("R14.5", 8)
 
 	// R14.6 default credential
 	ch := p.Fn("(*rt/client.Runtime).createHttpRequest")
@@ -431,7 +517,15 @@ func runC14(c *Ctx) {
 		}
 		c.obI("R14.6", b, "default-only-without-own-auth", okA, "the transport-wide default credential is wrapped in only when the operation has no AuthInfo of its own (and a default exists)", why)
 	}
-	for _, a := range anonFuncsDeep(ch) {
+	wrappers := anonFuncsDeep(ch)
+	// (the wrapper may be a method of the transport installed as a method value)
+	wrappers = append(wrappers, literalsOrBoundMethods(ch, func(sg *types.Signature) bool { return sg.Results().Len() == 1 && sg.Params().Len() == 2 })...)
+	seenW := map[*ssa.Function]bool{}
+	for _, a := range wrappers {
+		if seenW[a] {
+			continue
+		}
+		seenW[a] = true
 		for _, d := range callsIn(a, "(rt.ClientAuthInfoWriter).AuthenticateRequest") {
 			noHdr := factEqString(vOrigins(oConstString(""), oCallWhere(-1, "(net/http.Header).Get", func(g *ssa.Call) bool {
 				recv, ga := callArgs(&g.Call)
@@ -554,4 +648,113 @@ func resolve1(v ssa.Value) ssa.Value {
 		return os[0].V
 	}
 	return v
+}
+
+// ruleRequiredScopesPerScheme: the scopes handed to an authenticator (and by it to the application's callback) are the
+// ones the operation requires for THAT scheme: RouteAuthenticator.Authenticate fills ScopedAuthRequest.RequiredScopes
+// from ra.Scopes[scheme] — not from the union or the intersection over the requirement's schemes.
+func ruleRequiredScopesPerScheme(c *Ctx, rule string) {
+	f := c.P.Fn("(*rt/middleware.RouteAuthenticator).Authenticate")
+	n := 0
+	for _, st := range fieldStores(f, "rt/security.ScopedAuthRequest", "RequiredScopes") {
+		n++
+		ok := false
+		if l, isL := st.Val.(*ssa.Lookup); isL {
+			_, ok = fieldLoad(l.X, routeAuthT, "Scopes")
+		}
+		why := "value " + describe(st.Val)
+		if !ok {
+			_, bad := allOrigins(st.Val, func(Origin) bool { return false })
+			why += ": origin " + describeOrigin(bad)
+		}
+		c.obI(rule, st, "required-scopes-of-the-same-scheme", ok, "the callback is given the scopes the operation requires for the scheme being checked (ra.Scopes[scheme])", why)
+	}
+	c.obRF(rule, f, "hands-over-required-scopes", n >= 1, "Authenticate hands the required scopes to the authenticator", "")
+}
+
+func vs2names(vs interface{}) []string {
+	return []string{"rt/security.BasicAuthRealm", "rt/security.BasicAuthRealmCtx", "rt/security.APIKeyAuth", "rt/security.APIKeyAuthCtx", "rt/security.BearerAuth", "rt/security.BearerAuthCtx"}
+}
+
+// delegatesToSibling: the constructor returns what a sibling constructor of the same family returns, handing it its
+// own configuration parameters unchanged and, as the callback, a function literal that calls the constructor's own
+// callback with the credential it is given and hands back that callback's principal and error unchanged. The
+// credential reading, the 'not applicable' answer and the principal provenance are then the sibling's.
+func delegatesToSibling(c *Ctx, outer *ssa.Function, family []string) (string, bool) {
+	var del *ssa.Call
+	sib := ""
+	for _, ci := range allCallsShallow(outer) {
+		call, ok := ci.(*ssa.Call)
+		if !ok || call.Parent() != outer {
+			continue
+		}
+		n := calleeName(&call.Call)
+		for _, fam := range family {
+			if n == fam && fam != fnName(outer) {
+				del, sib = call, fam
+			}
+		}
+	}
+	if del == nil {
+		return "", false
+	}
+	for _, r := range realReturns(outer) {
+		if ok, _ := allOrigins(r.Results[0], oIsValue(del)); !ok {
+			return "", false
+		}
+	}
+	// configuration passes through; the last argument is the adapter
+	okCfg := true
+	var adapter *ssa.Function
+	for i, a := range del.Call.Args {
+		for k := 0; k < 3; k++ {
+			switch x := a.(type) {
+			case *ssa.ChangeType:
+				a = x.X
+			case *ssa.MakeInterface:
+				a = x.X
+			}
+		}
+		if fnv, isFn := a.(*ssa.Function); isFn && fnv.Parent() == outer {
+			adapter = fnv // a literal that captures nothing
+			continue
+		}
+		if mc, isMC := a.(*ssa.MakeClosure); isMC {
+			adapter, _ = mc.Fn.(*ssa.Function)
+			continue
+		}
+		if i < len(outer.Params) {
+			if okA, _ := allOrigins(a, oIsValue(outer.Params[i])); !okA {
+				okCfg = false
+			}
+		}
+	}
+	c.obI("R14.4", del, "delegation-passes-configuration", okCfg, "a variant that delegates to its sibling hands its configuration (realm / name / location) on unchanged", "")
+	okAd := false
+	if adapter != nil {
+		if cb := callbackCall(adapter); cb != nil {
+			okAd = true
+			// the credential handed to the application's callback is the one the adapter received
+			for _, a := range cb.Call.Args {
+				if okP, _ := allOrigins(a, func(o Origin) bool { prm, isP := o.V.(*ssa.Parameter); return isP && prm.Parent() == adapter }); !okP {
+					okAd = false
+				}
+			}
+			// principal and error come back unchanged
+			for _, r := range realReturns(adapter) {
+				n := len(r.Results)
+				if n < 2 {
+					okAd = false
+					continue
+				}
+				okPr, _ := allOrigins(r.Results[n-2], oIsValue(resultOf(cb, 0)))
+				okEr, _ := allOrigins(r.Results[n-1], oIsValue(resultOf(cb, 1)))
+				if !okPr || !okEr {
+					okAd = false
+				}
+			}
+		}
+	}
+	c.obI("R14.1", del, "delegation-adapter-is-transparent", okAd, "the adapter callback passes the credential to the application's callback and returns its principal and error unchanged", "the adapter between the variants alters the credential, the principal or the error")
+	return sib, true
 }
